@@ -36,7 +36,8 @@ RULE = (
     'case = (metric configuration [adapter + API mode], seeded data, sizes of the '
     '2-5 states [0 = fresh state], and within it every bracketing / permutation of '
     'the merge for m <= 4, 12 sampled bracketings x permutations beyond); states are '
-    'built from 1 batch (30%: 2 batches); non-trivial = >= 3 states or a fresh state '
+    'built from 1 batch (30%: 2 batches; CallableMetric states half of the time '
+    'directly by new(batch), as add() does internally); non-trivial = >= 3 states or a fresh state '
     'involved; distinct = hash(adapter, mode, dataset seed, sizes)')
 ASSUMPTIONS = list(_c01.ASSUMPTIONS) + [
     'a fresh state is what the constructor / create_state() returns, never fed',
@@ -52,7 +53,7 @@ ASSUMPTIONS = list(_c01.ASSUMPTIONS) + [
     'FixedSizeSample) are not scribbled on',
     'merge_states: only the first state may be modified (docstring of Aggregatable)',
 ]
-REQUIRED = ['grouping_checks', 'permutation_checks', 'identity_checks',
+REQUIRED = ['grouping_checks', 'states_built_by_new', 'permutation_checks', 'identity_checks',
             'operand_checks', 'result_checks', 'scribble_checks', 'reservoir_checks',
             'obj_api_checks', 'aggfn_api_checks', 'fresh_state_cases',
             'nary_merge_states_checks'] + _c01.FAMILY_COUNTERS
@@ -60,7 +61,7 @@ EXHAUSTIVE = {'quick': False, 'thorough': False}
 CHUNK_TIMEOUT_S = {'quick': 240, 'thorough': 3000}
 
 N_CHUNKS = {'quick': 32, 'thorough': 64}
-CASES_PER_ADAPTER_MODE = {'quick': 40, 'thorough': 1500}
+CASES_PER_ADAPTER_MODE = {'quick': 32, 'thorough': 1500}
 
 
 def plan(tier, seed):
@@ -158,6 +159,17 @@ def check_case(ctx, case, reg):
   states = []
   for part in parts:
     h = drv.make()
+    if (part and mode == 'obj' and ad.one_batch_path == 'new'
+        and ad.new_state_is_accumulator and rng.random() < 0.5):
+      # A batch state exactly as the library builds it inside add(): new(batch).
+      try:
+        st = ad.one_batch_state(part)
+      except Exception:  # pylint: disable=broad-exception-caught
+        st = None
+      if st is not None:
+        ctx.count('states_built_by_new')
+        states.append(A.Handle(st))
+        continue
     if part:
       cut = rng.randint(1, len(part) - 1) if (len(part) >= 2 and rng.random() < 0.3) else 0
       try:
